@@ -52,7 +52,7 @@ func randUpTo(g *h.G, mx int) int {
 	case 1:
 		return mx
 	}
-	return int(g.Rng.Int63() % (int64(mx)/2 + 1) * 2 % (int64(mx)/2*2 + 1))
+	return int(g.Rng.Int63n(int64(mx)))
 }
 
 func minI(a, b int) int {
